@@ -107,6 +107,23 @@ def run_search(selectors, seed, budget, timeout=900):
     return res
 
 
+_PRE = {}
+
+
+def covers():
+    """contract name -> list of function item specs it covers"""
+    binp, log = build()
+    if not binp:
+        return {}
+    p = subprocess.run([binp, "list"], capture_output=True, text=True, timeout=60)
+    out = {}
+    for ln in p.stdout.splitlines():
+        f = ln.split("\t")
+        if len(f) >= 2:
+            out[f[0]] = f[1].split(",")
+    return out
+
+
 def search(prop, unit, info, failed, seed):
     """called for a function whose proof failed: run the executable contracts that cover it"""
     sel = ["fn:" + info.name]
